@@ -159,7 +159,31 @@ def check_backend_rejection(case):
     return None
 
 
+def check_custom_namespace(case):
+    from odata_query import typing as ty
+    text = printer.render(from_json(case["term"]))
+    try:
+        a = lib.parse(text)
+    except Exception as e:
+        return ("setup-parse:" + type(e).__name__, "%r: %s" % (text, e))
+    try:
+        got = ty.infer_type(a)
+    except Exception as e:
+        return ("infer-exception:" + lib.exc_bucket(e), "%r -> %s: %s" % (text, type(e).__name__, e))
+    if got is not None:
+        return ("wrong-type:custom-function-as-%s" % getattr(got, "__name__", got),
+                "%r is a caller-defined function; inferred %s" % (text, getattr(got, "__name__", got)))
+    for allowed in (node_class("String"), (node_class("Integer"), node_class("List"))):
+        try:
+            ty.typecheck(a, allowed, "arg")
+        except Exception as e:
+            return ("typecheck-rejects-unknown-type", "%r rejected for allowed=%r: %s" % (text, allowed, e))
+    return None
+
+
 def check_case(case):
+    if case.get("mode") == "custom-namespace":
+        return check_custom_namespace(case)
     if case.get("mode") == "history":
         return check_history(case["n"], case["seed"])
     if case.get("mode") == "backend-literal":
@@ -227,6 +251,13 @@ def exhaustive_cases():
             continue
         for fn in ("contains", "startswith", "endswith"):
             yield {"mode": "backend-literal", "kind": kind, "text": text, "fn": fn}
+    # functions in a caller's own namespace that merely share a name with a built-in: their return type is
+    # not known to the library, so the only right answer is "unknown" (and typecheck must let them pass)
+    for (ns, name), sigs in sorted(SIGS.items()):
+        for cns in (("my",), ("stats", "v2"), ("Geo",), ("geography",)):
+            argtys = sigs[0][0]
+            args = tuple(ARGS[a][1 % len(ARGS[a])] for a in argtys)
+            yield {"mode": "custom-namespace", "term": to_json(("call", name, cns, args)), "fn": ".".join(cns + (name,))}
 
 
 TYPES = ["Int", "Real", "Str", "Bool", "DateTime", "Date", "Time"]
@@ -343,9 +374,10 @@ def plan(tier, seed, scale):
 def run_task(task, seed, acc):
     def one(case):
         r = check_case(case)
-        if case.get("mode") in ("literal", "backend-literal"):
-            acc.case(key=digest(case), nontrivial=True, sample=case)
-            acc.cls("literal_rejection" if case["mode"] == "literal" else "backend_literal_rejection")
+        if case.get("mode") in ("literal", "backend-literal", "custom-namespace"):
+            acc.case(key=digest(case), nontrivial=True, sample=case if case["mode"] != "custom-namespace" else {"fn": case["fn"]})
+            acc.cls({"literal": "literal_rejection", "backend-literal": "backend_literal_rejection",
+                     "custom-namespace": "custom_namespace_function"}[case["mode"]])
         else:
             t = from_json(case["term"])
             nt = t[0] in ("call", "bin", "cmp", "bool", "un")
